@@ -5,7 +5,7 @@ pub mod primes {
     /// use rsdd::constants::primes;
     /// assert!(primes::U32_TINY < u32::MAX as u128);
     /// ```
-    pub const U32_TINY: u128 = 1000001;
+    pub const U32_TINY: u128 = 1000003;
     /// ```
     /// use rsdd::constants::primes;
     /// assert!(primes::U32_SMALL < u32::MAX as u128);
@@ -15,7 +15,7 @@ pub mod primes {
     /// use rsdd::constants::primes;
     /// assert!(primes::U64_LARGEST < u64::MAX as u128);
     /// ```
-    pub const U64_LARGEST: u128 = 18_446_744_073_709_551_591;
+    pub const U64_LARGEST: u128 = 18_446_744_073_709_551_557;
     pub const U128_LARGE_1: u128 = 46084029846212370199652019757;
     pub const U128_LARGE_2: u128 = 49703069216273825773136967137;
     pub const U128_LARGE_3: u128 = 64733603481794218985640164159;
